@@ -1,5 +1,5 @@
 package acmecorp.policy
 
-allow if _is_admin
+allow if _admin
 
-_is_admin if input.user == "admin"
+_admin if input.user == "admin"
